@@ -86,7 +86,13 @@ class Model(HoloPyObject):
                         par, parameters_to_tie[0])
                 raise ValueError(msg)
             indices.append(self._parameter_names.index(par))
-        indices.sort()
+        # a parameter named twice is still one parameter
+        indices = sorted(set(indices))
+        if (new_name is not None and new_name in self._parameter_names
+                and self._parameter_names.index(new_name) not in indices):
+            msg = ("Cannot name tied parameter {}. Another parameter already "
+                   "has that name").format(new_name)
+            raise ValueError(msg)
         for index in indices[:0:-1]:
             del(self._parameters[index])
             del(self._parameter_names[index])
